@@ -3,9 +3,12 @@ import Driver.Util
 /-! driver for the host-call protocol on result cells (property C05; commands of harness/callrec.cpp)
 
     reset
-    script m <hex> ## <section> / <section> / …      section = `(<tgt>,…)` <instr>*
-    call <tK|-> new <val>*                            a fresh call record with these arguments
-    call <tK|-> r<k>                                  call record k used again as it is
+    script m <hex> ## [@<prefix>] <section> / <section> / …      section = `(<tgt>,…)` <instr>*
+    call <label|-> new <val>*                         a fresh call record with these arguments
+    call <label|-> r<k>                               call record k used again as it is
+  label = letters then digits.  Label K of the script is declared under the name `<prefix><K>` (prefix: lower-case
+  letters, `t` when the script line does not say); any other text — a larger K, other letters, the same letters
+  in another case — is the name of no label: label names are case sensitive.
     step <ms>
   tgt = l<n> local.v<n> | v<n> level.v<n> | g<n> game.v<n> | p<n> parm.v<n> | r<n> group.v<n>
   val = i<int> | s<letters> | n
@@ -16,6 +19,19 @@ open Morfuse.CallRec
 structure St where
   s : State := {}
   names : Array String := #[]       -- interned value tokens
+  prefix_ : String := "t"           -- label K is declared as `<prefix><K>`
+
+/-- the label a host call names: `some K` when the text is exactly the declared name of label K (K may be past
+the last label: not declared either), `some 0` (never a label) for every other text of the form
+letters-then-digits, `none` for a malformed token -/
+def labelOf (pre : String) (lab : String) : Option Nat :=
+  let letters := lab.toList.takeWhile Char.isAlpha
+  let digits := lab.toList.dropWhile Char.isAlpha
+  if letters.isEmpty || digits.isEmpty || !digits.all Char.isDigit then none
+  else if letters == pre.toList then
+    -- `t03` is not the name `t3`
+    (String.ofList digits).toNat?.map fun k => if (toString k).toList == digits then k else 0
+  else some 0
 
 def intern (st : St) (tok : String) : Nat × St :=
   match st.names.toList.idxOf? tok with
@@ -100,7 +116,12 @@ def answer (st : St) (status : String) (alive : Bool := false) : St × String :=
 def step (st : St) (t : List String) : St × String :=
   match t with
   | ["reset"] => answer {} "ok"
-  | "script" :: _ :: _ :: "##" :: abs =>
+  | "script" :: _ :: _ :: "##" :: abs0 =>
+    let (pre, abs) := match abs0 with
+      | p :: rest => if p.front == '@' then ((p.drop 1).toString, rest) else ("t", abs0)
+      | [] => ("t", abs0)
+    if pre.isEmpty || !pre.toList.all Char.isLower then (st, "bad-op") else
+    let st := { st with prefix_ := pre }
     let secs := (splitSecs abs).foldl (fun (acc : Option (List Sec × St)) toks =>
       acc.bind fun (l, st) => (parseSec st toks).map fun (sec, st) => (l ++ [sec], st)) (some ([], st))
     match secs with
@@ -110,8 +131,7 @@ def step (st : St) (t : List String) : St × String :=
     | none => (st, "bad-op")
   | "call" :: lab :: how :: vals =>
     let start : Option (Option Nat) :=
-      if lab == "-" then some none
-      else if lab.front == 't' then ((lab.drop 1).toString.toNat?).map some else none
+      if lab == "-" then some none else (labelOf st.prefix_ lab).map some
     match start with
     | none => (st, "bad-op")
     | some start =>
